@@ -166,15 +166,11 @@ def empty_done():
 
 
 def reload_unit(mode, cached):
-    @unit("C13/%s/%s/load_program-resets-before-parsing" % (mode.split("_")[0], "cached" if cached else "uncached"), ghost=True, expect_reach=("parsed",))
+    @unit("C13/%s/%s/load_program-resets-before-parsing" % (mode.split("_")[0], "cached" if cached else "uncached"), expect_reach=("parsed",))
     def u():
         """load_program on a simulation that has not started: at the moment the assembler starts, data memory, instruction
         memory and (if any) the caches with their instruction-cache counters are in their freshly constructed state,
-        whatever earlier (successful or failed) loads left behind.  Ghost unit: the assembler is replaced by a probe."""
-        if native():
-            reach("parsed")
-            check("ghost", True)
-            return
+        whatever earlier (successful or failed) loads left behind.  The assembler is replaced by a probe (stub)."""
         if cached:
             d = CacheOptions(enable=True, num_index_bits=0, num_block_bits=0, associativity=2, cache_type="wb", replacement_strategy="lru", miss_penalty=1)
             i = CacheOptions(enable=True, num_index_bits=0, num_block_bits=0, associativity=1, cache_type="wb", replacement_strategy="lru", miss_penalty=1)
@@ -211,11 +207,8 @@ for _m in ("single_stage_pipeline", "five_stage_pipeline"):
     reload_unit(_m, True)
 
 
-@unit("C13/toy/load_program-rebuilds-the-state", ghost=True)
+@unit("C13/toy/load_program-rebuilds-the-state")
 def toy_reload():
-    if native():
-        check("ghost", True)
-        return
     from architecture_simulator.isa.toy.toy_parser import ToyParser
     from contracts.toy import boundary_state
     sim, f = boundary_state()
